@@ -7,6 +7,7 @@
 import GrogModel.Lemmas.WalkerTrace
 import GrogModel.Lemmas.WalkerExamples
 import GrogModel.Lemmas.Pool
+import GrogModel.Lemmas.Sys
 namespace Grog.C03
 open Grog.Walker
 
@@ -74,6 +75,34 @@ theorem no_command_start_under_cancelled_context {s : Pool.State} (w : Nat) (h :
     Pool.step s (.cmdStart w) = none := by
   simp only [Pool.step]
   split <;> simp_all
+
+/-- Composition walker × pool tasks (the statement of the property's first clause about *commands*):
+    in every reachable state of the composed system, if the task of node `n` is in the job channel or
+    on a worker — in particular while one of its commands runs — then the callback of `n` is running
+    and every transitive dependency of `n` has completed successfully. -/
+theorem command_only_after_all_dependencies {c : Cfg} {s : Sys.State} (ok : CfgOK c)
+    (h : Sys.Reach c s) {n a : Node} (ht : (s.task n).active = true) (ha : Anc c a n) :
+    s.w.phase n = .running ∧ s.w.phase a = .ok := by
+  have hrun := Sys.reach_bracket h n ht
+  exact ⟨hrun, inv_started_anc (reach_inv ok (Sys.reach_walker h)) ha (by simp [hrun, Phase.started])⟩
+
+/-- a state with a running command of node 1 whose dependency 0 completed is reachable -/
+example : ∃ s, Sys.Reach (Ex.chain2 false) s ∧ s.task 1 = .busy true := by
+  have h0 : Sys.Reach (Ex.chain2 false) (Sys.init _) := Sys.Reach.init
+  have h1 := Sys.Reach.step h0 (e := .walker (.wake 0)) (s' := _) rfl
+  have h2 := Sys.Reach.step h1 (e := .cbReturn 0 .ok) (s' := _) rfl
+  have h3 := Sys.Reach.step h2 (e := .walker (.complete 0)) (s' := _) rfl
+  have h4 := Sys.Reach.step h3 (e := .walker (.wake 1)) (s' := _) rfl
+  have h5 := Sys.Reach.step h4 (e := .submit 1) (s' := _) rfl
+  have h6 := Sys.Reach.step h5 (e := .take 1) (s' := _) rfl
+  have h7 := Sys.Reach.step h6 (e := .cmdStart 1) (s' := _) rfl
+  exact ⟨_, h7, by decide⟩
+
+/-- in the composition a command never starts once the walk context is cancelled (fail-fast or
+    interrupt) -/
+theorem composed_no_command_start_after_cancel {c : Cfg} {s : Sys.State} (n : Node)
+    (hc : s.w.ctx = true) : Sys.step c s (.cmdStart n) = none := by
+  simp [Sys.step, hc]
 
 /-- "Absent cache faults each selected target is executed at most once per build", on the re-run model
     of `LoadDependencyOutputs` (both `load_outputs` modes). The hypothesis on `producedInThisBuild` is
